@@ -347,3 +347,19 @@ ROUND3_ADDENDA = {
 }
 for _id, _txt in ROUND3_ADDENDA.items():
     CHECKS[_id]["rule"] += ". Third round: " + _txt
+
+ROUND4_ADDENDA = {
+    "C05": "stop cause 'the dump command cannot be sent' (session set up, command larger than the configured packet limit); dimension 'master silent after the cause' (nothing more is "
+           "sent, the socket stays open: whatever the library must wake or close it must do itself); dimension 'caller context with a 15-40 ms deadline' (when it has not expired at "
+           "the return of Stream the harness waits for it before the first Error()); one scenario in twenty has a backlog of 400-1500 units behind a handler held in its first call",
+    "C06": "the same new dimensions as C05: an expired context of the caller does not excuse a swallowed transport failure when the deadline passed only after Stream had returned",
+    "C08": "second history shape over every supported type in which every second value is the zero / empty / null value of its type (incl. zero-length JSON values)",
+    "C14": "zero-length JSON values (the server reads them as the null literal)",
+    "C16": "the catalog status var also in its 5.0.0-5.0.3 form (code 2, trailing NUL not counted by the length)",
+    "C20": "the end-to-end documents are also compared with the master's model: SQL NULL is null, every other value (the empty string included) is a string with the value's text",
+}
+for _id, _txt in ROUND4_ADDENDA.items():
+    CHECKS[_id]["rule"] += ". Fourth round: " + _txt
+for _id, _c in CHECKS.items():
+    if _c.get("fuzz") and _id not in ("C14", "C17"):
+        _c["rule"] += ". Thorough tier: the generated part is additionally driven by go's native coverage-guided fuzzer (rapid.MakeFuzz), 45 s on all cores"
